@@ -73,6 +73,7 @@ void h_new (void)
 	OBL (g_allocs == g_frees + 4, "success: exactly handle, key, semaphore handle and its key stay allocated");
 	OBL (g_map_live && s->addr == (ppointer) &g_map_obj && g_maps == 1 && g_map_id == shm_id && shm_exists, "one shared mapping of the object the name denotes: same name = same bytes");
 	OBL (s->size <= g_map_len && s->size <= shm_size, "every byte below p_shm_get_size is mapped and backed by the object");
+	OBL (s->map_size == g_map_len, "the handle records the length that was mapped (the representation invariant p_shm_free relies on to remove the whole mapping)");
 	OBL (g_map_prot == (perms == P_SHM_ACCESS_READONLY ? PROT_READ : (PROT_READ | PROT_WRITE)), "protection as requested");
 	OBL (p_shm_get_size (s) == s->size && p_shm_get_address (s) == s->addr, "getters");
 	/* the lock is THE semaphore of this segment name */
